@@ -13,6 +13,27 @@ CHECKS = {
         'written out); harness/c18.py. Axiom-free (Print Assumptions: closed). Aliasing of returned views and slice steps are not modelled.',
    tech='Rocq proof: refinement to list spec by induction + model/implementation correspondence', ref='DESIGN.md section 6 (C18)'),
 }
+CHECKS['C02'] = dict(
+   text='Machine-checked theorems (exact rationals; candle_includes_price / split_candle REGENERATED from /repo each run) about the per-minute match loop with the '
+        'strategy layer as an ARBITRARY function of the fill: an order resting at the start of a minute whose price is inside the (gap-extended) range and which '
+        'is not cancelled IS filled in that minute (uses the first-touch ordering theorem and a new lemma that the earlier-touched fill leaves every later-touched '
+        'price inside the remainder); fills happen only inside the range and the partial candle closes at the order price; nothing in range is left at the end; '
+        'execute_pending_market_orders settles every queued MARKET order for every assignment of position effects. The loop model is run in Coq against the real '
+        '_simulate_price_change_effect with scripted reactions, and a Coq monitor (the property as a state machine deciding with the generated kernels at binary64) '
+        'is evaluated on the submit/cancel/execute/matcher event streams of real sessions in both simulators.',
+   note='Trusted: Coq kernel + vm_compute; translator; hand-written Model/Match.v and Model/Lifecycle.v tied by correspondence; harness/c02.py, engine.py, driver.py. '
+        'The fast simulator\'s chunk loop is covered by the monitor, not by a theorem. Axiom-free.',
+   tech='Rocq proof over source-regenerated kernels + match-loop model with arbitrary reactions; loop correspondence; Coq monitor on real event streams', ref='DESIGN.md section 6 (C02)')
+CHECKS['C07'] = dict(
+   text='Machine-checked theorem (exact rationals, every timeframe length n>0 and every store content): whenever the stored higher-timeframe candles are the '
+        'aggregations of the complete windows, optionally followed by one stale partial candle of the running window (the invariant the simulators maintain), '
+        'get_candles returns exactly one candle per started window and each equals the aggregation (first open, last close, max high, min low, summed volume) of '
+        'the 1m candles of that window; plus the aggregation function spec and agreement of the timeframe tables regenerated from /repo. The store/feed model '
+        '(add_candle, partial-candle publication at fills, window completion) is run inside Coq against the raw stores of real sessions, and the Coq '
+        'aggregation spec is evaluated on what strategies actually read at hook invocations (incl. hooks fired by mid-window fills) in both simulators.',
+   note='Trusted: Coq kernel + vm_compute; hand-written Model/CandleView.v, Model/CandleStore.v tied by correspondence; harness/c07.py + engine.py. '
+        'Preservation of the invariant by the simulators is covered by correspondence and the monitor, not by a theorem. Axiom-free.',
+   tech='Rocq proof over hand model + store correspondence inside Coq + aggregation monitor on real hook observations', ref='DESIGN.md section 6 (C07)')
 CHECKS['C08'] = dict(
    text='Machine-checked theorems (Coq 8.16, exact rationals) about the split_candle / candle_includes_price / gap-normalisation code REGENERATED from '
         '/repo on every run by a fail-closed Python-AST translator: totality and validity of the split on the whole range, the later half walks '
